@@ -29,10 +29,11 @@ def _cvc5_check(solver, extra, strings=False):
             f.write('(set-logic ALL)\n' + text)
             path = f.name
         try:
-            args = ['/usr/bin/cvc5', '--lang', 'smt2', f'--tlimit={CVC5_TIMEOUT_S * 1000}']
+            budget = int(os.environ.get('HIDV_CVC5_TIMEOUT_S', CVC5_TIMEOUT_S))
+            args = ['/usr/bin/cvc5', '--lang', 'smt2', f'--tlimit={budget * 1000}']
             if strings:
                 args.append('--strings-exp')
-            p = subprocess.run(args + [path], capture_output=True, text=True, timeout=CVC5_TIMEOUT_S + 5)
+            p = subprocess.run(args + [path], capture_output=True, text=True, timeout=budget + 5)
             out = p.stdout.strip().splitlines()
             ans = out[0].strip() if out else 'unknown'
             return (ans if ans in ('sat', 'unsat') else 'unknown'), (p.stderr[-300:] or ans)
@@ -44,7 +45,7 @@ def _cvc5_check(solver, extra, strings=False):
 
 def check(solver: z3.Solver, *extra, timeout_ms=None, strings=False):
     """sat/unsat/unknown with fallback; returns (answer, backend, reason, model|None)"""
-    total = timeout_ms or Z3_TIMEOUT_MS
+    total = timeout_ms or int(os.environ.get('HIDV_Z3_TIMEOUT_MS', Z3_TIMEOUT_MS))
     # the same query is occasionally pathological for one random seed and instant for another (unstable queries): the z3 budget is split over
     # three attempts with different seeds (a short first one: almost every query takes milliseconds; then 1/4 and 1/2 of the budget) before the
     # other solver is asked
